@@ -285,7 +285,7 @@ func RunJobs(ctx *Ctx, jobs []Job, opt SpawnOpt) []JobOutcome {
 			raceLog := ""
 			if opt.Race {
 				raceLog = filepath.Join(j.Scratch, "race")
-				cmd.Env = append(cmd.Env, "GOMAXPROCS=1", "GORACE=log_path="+raceLog+" exitcode=0 halt_on_error=0 history_size=2", "VCHECK_RACE_LOG="+raceLog)
+				cmd.Env = append(cmd.Env, "GOMAXPROCS=1", "GODEBUG=asyncpreemptoff=1", "GORACE=log_path="+raceLog+" exitcode=0 halt_on_error=0 history_size=2", "VCHECK_RACE_LOG="+raceLog)
 			} else if opt.MaxProcs1 {
 				cmd.Env = append(cmd.Env, "GOMAXPROCS=1")
 			}
